@@ -562,26 +562,46 @@ bool vm_ffi_call_cop(VmState *vm, const NvmModule *module, uint32_t import_idx,
                            result, heap, error_msg, error_msg_size);
     }
 
-    /* Build request payload: u32 import_idx + u16 argc + serialized args */
+    /* Build request payload: u32 import_idx + u16 argc + serialized args.
+     * Small requests use the stack buffer; if an argument does not fit, retry
+     * once with a heap buffer of the protocol's maximum payload size (the
+     * co-process does the same for large results). */
     uint8_t payload[8192];
-    uint32_t pos = 0;
-    memcpy(payload + pos, &import_idx, 4);
-    pos += 4;
-    uint16_t argc = (uint16_t)arg_count;
-    memcpy(payload + pos, &argc, 2);
-    pos += 2;
+    uint8_t *req = payload;
+    uint32_t req_cap = sizeof(payload);
+    uint32_t pos;
+    for (;;) {
+        pos = 0;
+        memcpy(req + pos, &import_idx, 4);
+        pos += 4;
+        uint16_t argc = (uint16_t)arg_count;
+        memcpy(req + pos, &argc, 2);
+        pos += 2;
 
-    for (int i = 0; i < arg_count && i < 16; i++) {
-        uint32_t n = cop_serialize_value(&args[i], payload + pos, sizeof(payload) - pos);
-        if (n == 0) {
-            snprintf(error_msg, error_msg_size, "COP: failed to serialize arg %d", i);
+        int bad_arg = -1;
+        for (int i = 0; i < arg_count && i < 16; i++) {
+            uint32_t n = cop_serialize_value(&args[i], req + pos, req_cap - pos);
+            if (n == 0) { bad_arg = i; break; }
+            pos += n;
+        }
+        if (bad_arg < 0) break;
+        if (req != payload) {
+            free(req);
+            snprintf(error_msg, error_msg_size, "COP: failed to serialize arg %d", bad_arg);
             return false;
         }
-        pos += n;
+        req = malloc(COP_MAX_PAYLOAD);
+        if (!req) {
+            snprintf(error_msg, error_msg_size, "COP: OOM for request");
+            return false;
+        }
+        req_cap = COP_MAX_PAYLOAD;
     }
 
     /* Send request */
-    if (!cop_send(vm->cop_in_fd, COP_MSG_FFI_REQ, payload, pos)) {
+    bool sent = cop_send(vm->cop_in_fd, COP_MSG_FFI_REQ, req, pos);
+    if (req != payload) free(req);
+    if (!sent) {
         /* Pipe broken — cop crashed during our call */
         vm_ffi_cop_stop(vm);
         snprintf(error_msg, error_msg_size,
